@@ -100,13 +100,14 @@ def run_C01(ctx):
         ("rel", "P3r", "S0", 4 if q else 5, pr, {}),
         ("rel", "P1", "S1", 4 if q else 6, pr, {}), ("rel", "P1", "S2", 4 if q else 6, pr, {}), ("rel", "P1", "S3", 4 if q else 6, pr, {}), ("rel", "P1", "S4", 4 if q else 6, pr, {}),
         ("rel", "P7t", "S0", 4 if q else 6, pr, {}), ("rel", "P4h", "S0", 4 if q else 6, pr, {}), ("rel", "P4d", "S0", 5 if q else 7, pr, {}), ("rel", "P4d", "S6", 5 if q else 7, pr, {}),
+        ("rel", "P2", "S9", 3 if q else 4, [], {}),
         ("dbg", "P1", "S0", 4 if q else 6, pr, {}), ("sec", "P1", "S0", 4 if q else 6, pr, {}),
         ("dbg", "P2", "S0", 3 if q else 4, pr, {}), ("sec", "P3r", "S0", 3 if q else 4, pr, {}),
     ]
     grid = [("rel", "entry", not q, {}), ("rel", "align", False, {}), ("dbg", "entry", False, {}), ("sec", "entry", False, {}),
             ("rel", "fillpage", False, {}), ("sec", "fillpage", False, {}), ("dbg", "fillpage", False, {})]
     return mixed_property(ctx, plan, grid,
-        rule="fillpage: for every size class up to 1 KiB and seven consecutive pages of it, the page is filled to its very last block while the next slice holds the page of a larger class (first block at the start of the slice); every block is checked against all live ones. inputs: every allocation entry point (30) x boundary size grid x release variant, and the (size, alignment, offset) grid of C03, in carried-over heap states; histories: all sequences of operations of each profile alphabet (P1 page life-cycle {malloc 8K/48, fill, free(i), collect}, P2 spans {64K,100K,1M,17M,40M}, P3 small, P3r realloc, P7t threads, P4h heaps) up to depth D from start states S0..S4; node oracle: every live block's whole usable range holds its pattern, new blocks are disjoint from live ones, aligned, inside accessible memory.",
+        rule="P2 from S9: a 4 GiB arena whose first block holds a live segment and whose blocks 1..63 are taken, so that new segments get arena block indices >= 64 (second bitmap field). fillpage: for every size class up to 1 KiB and seven consecutive pages of it, the page is filled to its very last block while the next slice holds the page of a larger class (first block at the start of the slice); every block is checked against all live ones. inputs: every allocation entry point (30) x boundary size grid x release variant, and the (size, alignment, offset) grid of C03, in carried-over heap states; histories: all sequences of operations of each profile alphabet (P1 page life-cycle {malloc 8K/48, fill, free(i), collect}, P2 spans {64K,100K,1M,17M,40M}, P3 small, P3r realloc, P7t threads, P4h heaps) up to depth D from start states S0..S4; node oracle: every live block's whole usable range holds its pattern, new blocks are disjoint from live ones, aligned, inside accessible memory.",
         assumptions=COMMON_ASSUME + ["free(i) is enumerated for all i while at most `free_window` blocks are live, else for the first and last window/2"])
 
 # ------------------------------------------------------------------------------------------------
@@ -191,11 +192,13 @@ def run_C12(ctx):
         ("rel", "P3r", "S0", 3 if q else 4, ["--observe", "walk"], {}), ("rel", "P5", "S0", 3 if q else 4, ["--observe", "walk"], {}),
         ("rel", "P7t", "S0", 4 if q else 5, ["--observe", "walk,abandoned"], AB), ("rel", "P7t", "S5", 4 if q else 5, ["--observe", "abandoned"], ABN),
         ("rel", "P7t", "S0", 4 if q else 5, ["--observe", "abandoned"], ABO),
+        # blocks of exited threads in arena segments and in segments straight from the OS at the same time (40 MiB does not fit a 32 MiB arena reserve)
+        ("rel", "P7m", "S0", 3 if q else 4, ["--observe", "abandoned"], envs(ABN, {"MIMALLOC_ARENA_RESERVE": "32MiB"})),
         ("dbg", "P1", "S0", 4 if q else 5, ["--observe", "walk"], {}), ("sec", "P6w", "S0", 3 if q else 5, ["--observe", "walk"], {}),
         ("dbg", "P7t", "S5", 3 if q else 4, ["--observe", "abandoned"], ABN),
     ]
     return seq_property(ctx, plan,
-        rule="all operation sequences of the profiles up to depth D; at every node, in a throw-away fork, every heap of the thread is walked with mi_heap_visit_blocks and compared with the reference model (each live block reported once by an enclosing range, no range without a live block except heap descriptors in the backing heap, area.used sum == visited blocks, early stop after k visitor calls for k=1..6); hole patterns: 8-block pages (all masks reachable), 64 x 1 KiB (one full bitmap word) and 127 x 512 B pages with free_every(k,phase); abandoned walk: blocks of exited threads reported exactly once by mi_abandoned_visit_blocks or by the adopting heap, for arena segments (one and two bitmap fields, start state S5) and OS segments.",
+        rule="abandoned-walk observer additionally: the sub-process counter of abandoned segments equals the segments marked in the arenas plus those linked in the OS list; a walk stopped by the visitor at call 2 / 3 is followed by a complete walk that must equal the first one. All operation sequences of the profiles up to depth D; at every node, in a throw-away fork, every heap of the thread is walked with mi_heap_visit_blocks and compared with the reference model (each live block reported once by an enclosing range, no range without a live block except heap descriptors in the backing heap, area.used sum == visited blocks, early stop after k visitor calls for k=1..6); hole patterns: 8-block pages (all masks reachable), 64 x 1 KiB (one full bitmap word) and 127 x 512 B pages with free_every(k,phase); abandoned walk: blocks of exited threads reported exactly once by mi_abandoned_visit_blocks or by the adopting heap, for arena segments (one and two bitmap fields, start state S5) and OS segments.",
         assumptions=COMMON_ASSUME + ["states with a pending cross-thread free (remote_free not yet followed by a collect of that heap) only require that no live block is missing; extra reports and used counts are outside the statement there",
                                      "the abandoned-walk runs set MIMALLOC_VISIT_ABANDONED=1 (required by the API) and, where stated, MIMALLOC_MAX_SEGMENT_RECLAIM=0 so that several abandoned segments coexist"])
 
@@ -246,6 +249,7 @@ def run_C13(ctx):
     P0 = {"MIMALLOC_PURGE_DELAY": "0"}; P0R = {"MIMALLOC_PURGE_DELAY": "0", "MIMALLOC_PURGE_DECOMMITS": "0", "VF_RESET_ZERO": "1"}
     cplan = [("rel", "A2", 2, 0, P0), ("rel", "A2", 2, 0, P0R), ("rel", "A2", 2, 0, {}), ("rel", "A1", 2 if not q else 1, 0, P0), ("dbg", "A2", 1 if q else 2, 0, P0),
              ("rel", "H4", 2, 0, P0), ("rel", "E1", 1 if q else 2, 0, envs(P0, {"MIMALLOC_ABANDONED_RECLAIM_ON_FREE": "1"})), ("rel", "H2", 1 if q else 2, 0, envs(P0, LAZY)),
+             ("dbg", "H4n", 2, 0, {}), ("sec", "H4n", 2, 0, {}), ("rel", "H4n", 2, 0, {"VF_RESET_ZERO": "1"}), ("dbg", "H4", 1 if q else 2, 0, {}),
              ("rel", "AB1", 2, 0, RF), ("dbg", "AB1", 1 if q else 2, 0, RF), ("rel", "AB1", 1 if q else 2, 0, envs(RF, {"MIMALLOC_PURGE_DECOMMITS": "0", "VF_RESET_ZERO": "1"}))]
     race = race_jobs(ctx, [("A2", P0), ("AB1", RF), ("H4", P0)])
     res = conc_property(ctx, conc_jobs(ctx, cplan), extra_jobs=seq_jobs(ctx, plan) + race,
@@ -286,9 +290,13 @@ def envs(*ds):
 def run_C07(ctx):
     q = ctx.quick
     fl = [] if q else ["--pairs"]
-    P0 = {"MIMALLOC_PURGE_DELAY": "0"}; NOA = {"MIMALLOC_DISALLOW_ARENA_ALLOC": "1"}; SMALL = {"MIMALLOC_ARENA_RESERVE": "64MiB"}
+    P0 = {"MIMALLOC_PURGE_DELAY": "0"}; NOA = {"MIMALLOC_DISALLOW_ARENA_ALLOC": "1"}; SMALL = {"MIMALLOC_ARENA_RESERVE": "64MiB"}; ALAZY = {"MIMALLOC_ARENA_EAGER_COMMIT": "0"}
     plan = [("rel", "fault", fl, {}), ("rel", "fault", fl, envs(LAZY, P0)), ("rel", "fault", fl, NOA), ("rel", "fault", fl, envs(LAZY, P0, NOA)),
-            ("sec", "fault", fl, {}), ("sec", "fault", [], envs(LAZY, P0)), ("dbg", "fault", fl, {}), ("dbg", "fault", [], envs(LAZY, P0))]
+            ("sec", "fault", fl, {}), ("sec", "fault", [], envs(LAZY, P0)), ("dbg", "fault", fl, {}), ("dbg", "fault", [], envs(LAZY, P0)),
+            # arena memory committed on demand while segments commit eagerly: a refused arena-level commit is followed by the commit of the descriptor slices
+            ("rel", "fault", fl, ALAZY), ("sec", "fault", [], ALAZY),
+            # pairs of failures for one workload (also exercises the known finding "fresh segment kept without pages")
+            ("rel", "fault", ["--pairs", "--only-workload", "realloc"], envs(LAZY, P0, NOA))]
     if not q:
         plan += [("rel", "fault", fl, envs(SMALL, P0, {"MIMALLOC_PURGE_DECOMMITS": "0"})), ("sec", "fault", [], NOA), ("dbg", "fault", [], NOA), ("rel", "fault", [], envs(LAZY, SMALL))]
     return os_property(ctx, plan, level="fault_enumeration",
@@ -309,7 +317,7 @@ def run_C11(ctx):
             for v in ("rel", "dbg", "sec"):
                 plan.append((v, "footprint", [], envs(a, {"MIMALLOC_PURGE_DELAY": d, "MIMALLOC_PURGE_DECOMMITS": dc, "VF_RESET_ZERO": "1"}, lz)))
     return os_property(ctx, plan, level="model_checking", parallel=4,
-        rule="9 allocate-everything/free-everything workloads (small, large, huge 17/40/100/33 MiB, over-aligned huge up to 128 MiB alignment, 8 and 40 sequential threads that exit with live blocks, heaps, realloc chains, mixed) x option configurations (arenas enabled / disabled / too small, purge delay 10/0/-1, decommit or reset, eager or lazy commit) x 4 repetitions; after each repetition + mi_collect(true) the shim's mapping table is inspected: (1) no mapping outside arena areas survives except segment-map parts and arena descriptors, (2) unless purge_delay=-1 no page inside an arena is resident (mincore), (3) total mapped bytes and resident bytes do not grow from repetition r to r+1.",
+        rule="(workload staggered: 20 + 100 + 40 MiB; the 100 MiB block is released and force-collected while the lower block is live, then the next, then everything) 9 allocate-everything/free-everything workloads (small, large, huge 17/40/100/33 MiB, over-aligned huge up to 128 MiB alignment, 8 and 40 sequential threads that exit with live blocks, heaps, realloc chains, mixed) x option configurations (arenas enabled / disabled / too small, purge delay 10/0/-1, decommit or reset, eager or lazy commit) x 4 repetitions; after each repetition + mi_collect(true) the shim's mapping table is inspected: (1) no mapping outside arena areas survives except segment-map parts and arena descriptors, (2) unless purge_delay=-1 no page inside an arena is resident (mincore), (3) total mapped bytes and resident bytes do not grow from repetition r to r+1.",
         assumptions=COMMON_ASSUME + ["threads of the multi-threaded workloads run one after the other (deterministic schedule)", "bounded to 4 repetitions (the mapped-byte sequence is constant from repetition 1 on in every run, reported in the samples)"])
 
 def run_C18(ctx):
@@ -392,7 +400,7 @@ NORECL = {"MIMALLOC_MAX_SEGMENT_RECLAIM": "0"}    # no adoption while searching 
 def run_C02(ctx):
     q = ctx.quick
     B = 2
-    plan = [("rel", p, B, 1, {}) for p in ("H1", "H2", "H3", "H4", "H5", "D1")] + [("rel", "E5", B, 1, RF), ("rel", "E1", B, 1, RF), ("rel", "H4", B, 0, {"VF_RESET_ZERO": "1"}), ("rel", "AB1", B, 0, RF), ("rel", "AB2", B, 0, RF)]
+    plan = [("rel", p, B, 1, {}) for p in ("H1", "H2", "H3", "H4", "H5", "D1")] + [("rel", "E5", B, 1, RF), ("rel", "E1", B, 1, RF), ("rel", "H4", B, 0, {"VF_RESET_ZERO": "1"}), ("rel", "AB1", B, 0, RF), ("rel", "AB2", B, 0, RF), ("dbg", "H4n", B, 0, {}), ("sec", "H4n", 1 if q else B, 0, {})]
     plan += [("dbg", "H2", 1 if q else 2, 1, {}), ("sec", "H3", 1 if q else 2, 1, {})]
     if q: plan += [("rel", ("family", 0, 700, ), 1, 0, {})]
     else: plan += [("rel", ("family", 0, 750), 2, 1, {}), ("rel", "H2", 3, 2, {}), ("rel", "H3", 3, 2, {}), ("rel", "H1", 3, 2, {}), ("rel", "H5", 3, 2, {}), ("dbg", "H5", 2, 1, {}), ("sec", "H2", 2, 1, {})]
